@@ -36,7 +36,7 @@ RULE = ("seeded sampling over group {eig, eigdeg, svd, svddeg} x method x M x op
         "every compared leaf is non-zero, the backward path promised by the method was observed by the spies (implicit: >=1 "
         "shifted backward solve; dense: degen_symeig.backward ran), and for degenerate cases the backward saw a degeneracy map "
         "(implicit path) and the finite-difference derivative is non-zero")
-MIN_NONTRIVIAL = {"quick": 500, "thorough": 6000}
+MIN_NONTRIVIAL = {"quick": 2500, "thorough": 25000}
 ASSUMPTIONS = [
     "generalised eigenvalues prescribed: neighbouring distinct values differ by >= gap in {1, 0.1}; exactly repeated values only "
     "in groups 'eigdeg'/'svddeg', where every repeated group lies completely inside (or completely outside) the selection",
@@ -68,7 +68,7 @@ FD_H = 1e-4
 # ------------------------------------------------------------------------------------------------ case lists
 def cases(seed, tier):
     out = []
-    N = {"quick": (420, 300, 170, 90), "thorough": (5200, 3800, 2000, 1100)}[tier]
+    N = {"quick": (1600, 1200, 700, 400), "thorough": (16000, 12000, 7000, 4000)}[tier]
     big = [12, 16, 24] if tier == "quick" else [12, 16, 24, 40]
     # ---- separated spectra, symeig
     for i in range(N[0]):
@@ -102,8 +102,8 @@ def cases(seed, tier):
         if d["method"] == "davidson" and rng.random() < 0.2:
             d["n"] = rng.choice(big[:2])
         d["mult"] = _draw_mult(rng, d["n"])
-        d["ngroups_sel"] = rng.randrange(1, len(d["mult"]) + 1)
         d["mode"] = rng.choice(["lowest", "uppest", "uppermost"])
+        d["ngroups_sel"] = _draw_nsel(rng, d["mult"], d["mode"])
         d["gap"] = rng.choice([1.0, 0.1])
         d["batch"] = rng.randrange(len(BATCHES)) if d["n"] <= 8 else 0
         d["mixed"] = rng.random() < 0.25        # some batch elements have the groups split (same loss, no degeneracy there)
@@ -136,8 +136,8 @@ def cases(seed, tier):
         d["opkind"] = rng.choice(["dense", "mv_rmv", "all"])
         mn = min(d["m"], d["n"])
         d["mult"] = _draw_mult(rng, mn)
-        d["ngroups_sel"] = rng.randrange(1, len(d["mult"]) + 1)
         d["mode"] = rng.choice(["lowest", "uppest", "uppermost"])
+        d["ngroups_sel"] = _draw_nsel(rng, d["mult"], d["mode"])
         d["gap"] = rng.choice([1.0, 0.1])
         d["batch"] = rng.choice([0, 0, 2])
         d["bck"] = rng.choice(BCK)
@@ -157,6 +157,13 @@ def _draw_mult(rng, n):
         if max(mult) >= 2:
             return mult
     return [2] + [1] * (n - 2)
+
+
+def _draw_nsel(rng, mult, mode):
+    """number of complete groups taken from the requested end such that a repeated group is among them"""
+    order = mult if mode == "lowest" else mult[::-1]
+    first = next(i for i, m in enumerate(order) if m >= 2) + 1
+    return rng.randrange(first, len(mult) + 1)
 
 
 # ------------------------------------------------------------------------------------------------ helpers
@@ -482,14 +489,19 @@ def _mech(desc, what):
     else:
         cfg = "%s:%s:svd:%s" % (path, desc["method"], desc["bck"] if path == "implicit" else "-")
     if desc["group"] in ("eigdeg", "svddeg"):
-        cfg += ":" + desc.get("loss", "-")
+        # "_full": one repeated value fills the whole space (A = e M, or A^H A = s^2 I): A - e M is the zero matrix
+        cfg += ":" + desc.get("loss", "-") + ("_full" if len(desc["mult"]) == 1 else "")
     return "%s:%s:%s" % (desc["group"], what, cfg)
 
 
-def _tols(desc, n):
-    if desc["method"] == "davidson" and n > 10:
-        return 1e-4, 1e-3
-    return 2e-6, 2e-5
+TOL1, TOL2, TOLFD = 2e-6, 2e-5, 2e-6
+FWD_AMPL = 1e8          # a gradient cannot be more accurate than the forward pairs it is evaluated at
+FWD_Q_MAX = 1e-10
+
+
+def _tols(fwd_q):
+    """(first order, second order, finite difference) tolerances, widened by the measured inaccuracy of the forward pairs"""
+    return max(TOL1, FWD_AMPL * fwd_q), max(TOL2, 10 * FWD_AMPL * fwd_q), max(TOLFD, FWD_AMPL * fwd_q)
 
 
 def _run_eig(desc, obs):
@@ -520,7 +532,6 @@ def _run_eig(desc, obs):
     method, fwd = _method_arg(desc["method"])
     bck = _bck_options(desc["bck"], n)
     counter = {}
-    tol1, tol2 = _tols(desc, n)
     spectral = (not degen) or desc.get("loss") == "spectral"
 
     def xi_forward():
@@ -565,12 +576,19 @@ def _run_eig(desc, obs):
         A, M = dense(leaves)
         er, Xr = _ref_eig(A, M, idx)
         fwd_err = float((e.detach() - er.detach()).abs().max())
-        obs.note(forward_eigenvalue_error=fwd_err, k=k, groups=groups, batch=list(bs))
-        if fwd_err > 1e-6:
-            # the forward itself is wrong / unconverged: C05's business; the gradient comparison would be meaningless
-            obs.skip("forward eigenvalues differ from the reference by %.1e (C05 decides that)" % fwd_err)
-            obs.count("skipped_forward_mismatch")
+        with torch.no_grad():
+            Xd = X.detach()
+            MX = torch.matmul(M, Xd) if M is not None else Xd
+            q_res = float((torch.matmul(A, Xd) - MX * e.detach().unsqueeze(-2)).abs().max())
+            q_ort = float((torch.matmul(_H(Xd), MX) - torch.eye(k, dtype=Xd.dtype)).abs().max())
+        fwd_q = max(q_res, q_ort)
+        obs.note(forward_eigenvalue_error=fwd_err, forward_quality=fwd_q, k=k, groups=groups, batch=list(bs))
+        if fwd_err > 1e-6 or fwd_q > FWD_Q_MAX:
+            # the forward itself is wrong / not accurate enough: C05's business; the gradient comparison would be meaningless
+            obs.skip("forward pairs too inaccurate for a gradient comparison (C05 decides the forward)")
+            obs.count("skipped_forward_inaccurate")
             return
+        tol1, tol2, tolfd = _tols(fwd_q)
         if warned1:
             obs.skip("backward solve emitted a ConvergenceWarning")
             obs.count("skipped_backward_warned")
@@ -596,7 +614,7 @@ def _run_eig(desc, obs):
                 err = _relerr(g.detach(), r.detach())
                 worst = max(worst, err)
                 nz = nz and float(r.detach().abs().max()) > 1e-8
-                obs.check(err <= tol1, _mech(desc, "first:d%s" % nm),
+                _cmp(obs, err, tol1, _mech(desc, "first:d%s" % nm),
                           "d loss/d %s differs from the dense reference: rel. error %.3e (tol %.1e)" % (nm, err, tol1),
                           n=n, k=k, mode=desc["mode"], gap=desc["gap"], opkind=desc["opkind"], batch=list(bs), dtype=desc["dtype"])
             obs.count("first_order_compared")
@@ -623,7 +641,7 @@ def _run_eig(desc, obs):
                         continue
                     err = _relerr(g.detach(), r.detach())
                     worst2 = max(worst2, err)
-                    obs.check(err <= tol2, _mech(desc, "second:d%s" % nm),
+                    _cmp(obs, err, tol2, _mech(desc, "second:d%s" % nm),
                               "second-order gradient w.r.t. %s differs from the dense reference: rel. error %.3e (tol %.1e)" % (nm, err, tol2),
                               n=n, k=k, mode=desc["mode"], gap=desc["gap"], opkind=desc["opkind"], batch=list(bs), dtype=desc["dtype"])
                 obs.count("second_order_compared")
@@ -640,7 +658,7 @@ def _run_eig(desc, obs):
                     err = abs(an - fd) / max(1.0, abs(fd))
                     worst = max(worst, err)
                     nz = nz and abs(fd) > 1e-6
-                    obs.check(err <= 2e-6, _mech(desc, "fd:d%s" % nm),
+                    _cmp(obs, err, tolfd, _mech(desc, "fd:d%s" % nm),
                               "<grad_%s, d> = %.9e but the finite difference of the independent forward along the degeneracy-breaking "
                               "direction is %.9e" % (nm, an, fd), n=n, k=k, mult=mult, groups=groups, mode=desc["mode"],
                               opkind=desc["opkind"], batch=list(bs), dtype=desc["dtype"], mixed=bool(desc.get("mixed")))
@@ -648,6 +666,13 @@ def _run_eig(desc, obs):
             obs.note(fd_relerr=worst)
             saw_map = sp.n["degmap"] >= 1 if desc["method"] != "exacteig" else True
             obs.nontrivial = ok_reach and nz and saw_map
+
+
+def _cmp(obs, err, tol, mech, msg, **data):
+    """one tolerance comparison; the largest error/tolerance ratio of the case is kept for the calibration record"""
+    ratio = err / tol if err == err else float("inf")
+    obs.obs["worst_ratio"] = max(obs.obs.get("worst_ratio", 0.0), ratio)
+    return obs.check(err <= tol, mech, msg, **data)
 
 
 def _forward_raised(obs, ex):
@@ -713,7 +738,6 @@ def _run_svd(desc, obs):
     method, fwd = _method_arg(desc["method"])
     bck = _bck_options(desc["bck"], mn)
     counter = {}
-    tol1, tol2 = _tols(desc, mn)
     uside = (not degen) or desc.get("loss") == "proj"
     kw = dict(fwd)
     if desc["method"] != "exacteig":
@@ -742,11 +766,18 @@ def _run_svd(desc, obs):
             return
         Ur, Sr, Vhr = _ref_svd(PA, idx)
         fwd_err = float((S.detach() - Sr.detach()).abs().max())
-        obs.note(forward_singular_value_error=fwd_err, k=k, groups=groups, batch=list(BA))
-        if fwd_err > 1e-6:
-            obs.skip("forward singular values differ from the reference by %.1e (C05 decides that)" % fwd_err)
-            obs.count("skipped_forward_mismatch")
+        with torch.no_grad():
+            Ud, Sd, Vd = U.detach(), S.detach().unsqueeze(-2), _H(Vh.detach())
+            Ad = PA.detach()
+            eye = torch.eye(k, dtype=Ud.dtype)
+            fwd_q = max(float((torch.matmul(Ad, Vd) - Ud * Sd).abs().max()), float((torch.matmul(_H(Ad), Ud) - Vd * Sd).abs().max()),
+                        float((torch.matmul(_H(Ud), Ud) - eye).abs().max()), float((torch.matmul(_H(Vd), Vd) - eye).abs().max()))
+        obs.note(forward_singular_value_error=fwd_err, forward_quality=fwd_q, k=k, groups=groups, batch=list(BA))
+        if fwd_err > 1e-6 or fwd_q > FWD_Q_MAX:
+            obs.skip("forward triplets too inaccurate for a gradient comparison (C05 decides the forward)")
+            obs.count("skipped_forward_inaccurate")
             return
+        tol1, tol2, tolfd = _tols(fwd_q)
         if wl.convergence:
             obs.skip("backward solve emitted a ConvergenceWarning")
             obs.count("skipped_backward_warned")
@@ -766,7 +797,7 @@ def _run_svd(desc, obs):
             lossr = _svd_loss(Ur, Sr, Vhr, groups, cot, uside)
             r1, = torch.autograd.grad(lossr, [PA], create_graph=bool(desc.get("order2")))
             err = _relerr(g1.detach(), r1.detach())
-            obs.check(err <= tol1, _mech(desc, "first:dPA"),
+            _cmp(obs, err, tol1, _mech(desc, "first:dPA"),
                       "d loss/d A differs from the torch.linalg.svd reference: rel. error %.3e (tol %.1e)" % (err, tol1),
                       m=m, n=n, k=k, mode=desc["mode"], gap=desc["gap"], opkind=desc["opkind"], batch=list(BA), dtype=desc["dtype"])
             obs.count("first_order_compared")
@@ -787,7 +818,7 @@ def _run_svd(desc, obs):
                     obs.check(False, _mech(desc, "second:none"), "no second-order gradient reached the leaf of A")
                     return
                 err2 = _relerr(g2.detach(), r2.detach())
-                obs.check(err2 <= tol2, _mech(desc, "second:dPA"),
+                _cmp(obs, err2, tol2, _mech(desc, "second:dPA"),
                           "second-order gradient w.r.t. A differs from the torch.linalg.svd reference: rel. error %.3e (tol %.1e)" % (err2, tol2),
                           m=m, n=n, k=k, mode=desc["mode"], gap=desc["gap"], opkind=desc["opkind"], batch=list(BA), dtype=desc["dtype"])
                 obs.count("second_order_compared")
@@ -801,7 +832,7 @@ def _run_svd(desc, obs):
                 err = abs(an - fd) / max(1.0, abs(fd))
                 worst = max(worst, err)
                 nz = nz and abs(fd) > 1e-6
-                obs.check(err <= 2e-6, _mech(desc, "fd:dPA"),
+                _cmp(obs, err, tolfd, _mech(desc, "fd:dPA"),
                           "<grad_A, d> = %.9e but the finite difference of torch.linalg.svd along the degeneracy-breaking direction "
                           "is %.9e" % (an, fd), m=m, n=n, k=k, mult=mult, groups=groups, mode=desc["mode"], opkind=desc["opkind"],
                           batch=list(BA), dtype=desc["dtype"])
